@@ -47,6 +47,8 @@ def build(ctx, v, t):
                 return Fraction(v) if ctx.exact else float(v)
             return num(ctx, v)
         return num(ctx, v)
+    if isinstance(t, S.Lit):
+        return t.value
     if isinstance(t, S.Opt):
         return None if v is None else build(ctx, v, t.t)
     if isinstance(t, S.Tup):
@@ -157,3 +159,13 @@ def build_rung(ctx, f, raw):
 
     r = Rung(level=f["level"], prom_quant=f["prom_quant"], mode="min" if f["_is_min"] else "max", data=f["data"])
     return r
+
+
+@builder("prung")
+def build_prung(ctx, f, raw):
+    from syne_tune.optimizer.schedulers.hyperband_stopping import Rung
+
+    return Rung(level=f["level"], prom_quant=f["prom_quant"], mode="min" if f["_is_min"] else "max", data=f["data"])
+
+
+BUILDERS["crung"] = build_prung
